@@ -134,9 +134,9 @@ func (s *Sorter) Reset() {
 	if s.chunks != nil {
 		s.chunks = s.chunks[:0]
 	}
-	if s.cleanups != nil {
-		s.cleanups = s.cleanups[:0]
-	}
+	// the spill files of the previous use are of no use any more: remove them now,
+	// nothing else will (Close only knows the cleanups still in the list)
+	s.Close()
 }
 
 func (s *Sorter) AddRow(row []string) error {
@@ -524,11 +524,13 @@ func (s *Sorter) SortedRows(ctx context.Context, removedCols map[int]struct{}, e
 	return rowsCh
 }
 
-func (s *Sorter) Close() error {
+func (s *Sorter) Close() (err error) {
+	// every spill file gets its chance to be removed, and none is cleaned up twice
 	for _, f := range s.cleanups {
-		if err := f(); err != nil {
-			return err
+		if e := f(); e != nil && err == nil {
+			err = e
 		}
 	}
-	return nil
+	s.cleanups = s.cleanups[:0]
+	return err
 }
